@@ -295,13 +295,13 @@ class DLTIFilter(object):
             # Denominator for Yi(z)
             denom = self.a[0] * z**0
             num = 0 * z
-            for k in range(1, Nl):
-                az = self.a[k] * z**(-k)
+            for k in range(1, max(Nl, len(self.b))):
+                az = (self.a[k] if k < Nl else 0) * z**(-k)
                 denom += az
                 # Numerator for Yi(z)
                 y0 = 0 * z
                 x0 = 0 * z
-                for i in range(0, k):
+                for i in range(0, min(k, Nl - 1)):
                     y0 += ic[i] * z**(i + 1)
                     x0 += xic[i] * z**(i + 1)
                 # ic conditions
